@@ -35,33 +35,34 @@ theorem parseLongFrom_ok (s : Bytes) (eq : Option Nat) (heq : indexEq s = eq) (l
           · simp only [h3]; exact ih (k + 1)
 
 theorem parseLong_ok (specs : List OptionSpec) (s : Bytes) :
-    ∃ o b, parseLong true s specs = .ok (o, b) := by
+    ∃ o b x, parseLong true s specs = .ok (o, b, x) := by
   unfold parseLong
   obtain ⟨r, hr⟩ := parseLongFrom_ok s _ rfl specs 0
   simp only [hr]
-  rcases r with _ | ⟨o, b⟩
+  rcases r with _ | ⟨o, b, x⟩
   · rcases hi : indexEq s with _ | e
-    · exact ⟨_, _, rfl⟩
+    · exact ⟨_, _, _, rfl⟩
     · obtain ⟨hlt, _⟩ := indexEq_some s e hi
       simp only
       rw [slice_to s e (by omega), slice_from s (e + 1) (by omega)]
-      exact ⟨_, _, rfl⟩
-  · exact ⟨o, b, rfl⟩
+      exact ⟨_, _, _, rfl⟩
+  · exact ⟨o, b, x, rfl⟩
 
 theorem longBranch_ok (specs : List OptionSpec) (st : PState) (s : Bytes) :
     ∃ st', (match parseLong true s specs with
-      | .ok (newopt, needArg) =>
-        if needArg then Res.ok { st with opt := some newopt }
+      | .ok (newopt, needArg, extra) =>
+        if extra then Res.ok { st with extraArg := st.extraArg ++ [newopt] }
+        else if needArg then .ok { st with opt := some newopt }
         else .ok { st with opts := st.opts ++ [newopt] }
       | .exc x => .exc x
       | .panic p => .panic p) = .ok st' := by
-  obtain ⟨o, b, h⟩ := parseLong_ok specs s
+  obtain ⟨o, b, x, h⟩ := parseLong_ok specs s
   rw [h]
-  cases b <;> exact ⟨_, rfl⟩
+  cases b <;> cases x <;> exact ⟨_, rfl⟩
 
 theorem parseStep_ok (specs : List OptionSpec) (cfg : Nat) (st : PState) (w : Bytes) :
     ∃ st', parseStep true specs cfg st w = .ok st' := by
-  obtain ⟨opts, nonOpt, opt, stop⟩ := st
+  obtain ⟨opts, nonOpt, opt, stop, extra⟩ := st
   unfold parseStep
   rcases opt with _ | o
   · simp only
@@ -75,7 +76,7 @@ theorem parseStep_ok (specs : List OptionSpec) (cfg : Nat) (st : PState) (w : By
             rcases w with _ | ⟨a, _ | ⟨b, t⟩⟩ <;> simp_all [hasPrefix, dd]
           simp only [h2, if_true]
           rw [slice_two w hlen]
-          exact longBranch_ok specs ⟨opts, nonOpt, none, false⟩ _
+          exact longBranch_ok specs ⟨opts, nonOpt, none, false, extra⟩ _
         · simp only [h2]
           by_cases h3 : (hasPrefix w [dash] && w != dd && w != [dash]) = true
           · have hlen : 1 ≤ w.length := by
@@ -84,9 +85,9 @@ theorem parseStep_ok (specs : List OptionSpec) (cfg : Nat) (st : PState) (w : By
             rw [slice_one w hlen]
             by_cases hlo : has cfg LongOnly = true
             · simp only [hlo, if_true]
-              exact longBranch_ok specs ⟨opts, nonOpt, none, false⟩ _
+              exact longBranch_ok specs ⟨opts, nonOpt, none, false, extra⟩ _
             · simp only [hlo]
-              exact ⟨_, afterShort specs ⟨opts, nonOpt, none, false⟩ _⟩
+              exact ⟨_, afterShort specs ⟨opts, nonOpt, none, false, extra⟩ _⟩
           · simp only [h3]; exact ⟨_, rfl⟩
     · exact ⟨_, rfl⟩
   · exact ⟨_, rfl⟩
@@ -106,12 +107,12 @@ theorem parse_ok (specs : List OptionSpec) (cfg : Nat) (args : List Bytes) :
 
 theorem longCtx_ok (specs : List OptionSpec) (st : PState) (s : Bytes) :
     ∃ r, (match parseLong true s specs with
-      | .ok (newopt, _) =>
+      | .ok (newopt, _, _) =>
         Res.ok (st.opts, st.nonOptArgs, (⟨OptionArgument, some newopt, []⟩ : Context))
       | .exc x => .exc x
       | .panic p => .panic p) = .ok r ∧
         (r.2.2.typ = OptionArgument → r.2.2.option.isSome = true) := by
-  obtain ⟨o, b, h⟩ := parseLong_ok specs s
+  obtain ⟨o, b, x, h⟩ := parseLong_ok specs s
   rw [h]
   exact ⟨_, rfl, fun _ => rfl⟩
 
@@ -119,7 +120,7 @@ set_option linter.unusedSimpArgs false in
 theorem completeLast_ok (specs : List OptionSpec) (cfg : Nat) (st : PState) (last : Bytes) :
     ∃ r, completeLast true specs cfg st last = .ok r ∧
       (r.2.2.typ = OptionArgument → r.2.2.option.isSome = true) := by
-  obtain ⟨opts, nonOpt, opt, stop⟩ := st
+  obtain ⟨opts, nonOpt, opt, stop, extra⟩ := st
   unfold completeLast
   rcases opt with _ | o
   · simp only
@@ -140,7 +141,7 @@ theorem completeLast_ok (specs : List OptionSpec) (cfg : Nat) (st : PState) (las
             by_cases hc : (!containsEq last) = true
             · simp only [hc, if_true]; exact ⟨_, rfl, by first | (intro _; rfl) | (intro h; simp [OptionArgument, OptionOrArgument, AnyOption, LongOption, ChainShortOption, Argument] at h)⟩
             · simp only [hc]
-              exact longCtx_ok specs ⟨opts, nonOpt, none, false⟩ _
+              exact longCtx_ok specs ⟨opts, nonOpt, none, false, extra⟩ _
           · simp only [hdd]
             by_cases hp : hasPrefix last [dash] = true
             · obtain ⟨b, t, rfl⟩ : ∃ b t, last = dash :: b :: t := by
@@ -153,7 +154,7 @@ theorem completeLast_ok (specs : List OptionSpec) (cfg : Nat) (st : PState) (las
                 by_cases hc : (!containsEq (dash :: b :: t)) = true
                 · simp only [hc, if_true]; exact ⟨_, rfl, by first | (intro _; rfl) | (intro h; simp [OptionArgument, OptionOrArgument, AnyOption, LongOption, ChainShortOption, Argument] at h)⟩
                 · simp only [hc]
-                  exact longCtx_ok specs ⟨opts, nonOpt, none, false⟩ _
+                  exact longCtx_ok specs ⟨opts, nonOpt, none, false, extra⟩ _
               · simp only [hlo]
                 rw [parseShort_eq]
                 have hne := wordOpts_cluster_ne_nil specs (b :: t) (by simp)
